@@ -155,6 +155,46 @@ class ScriptedSource(ScheduleSource):
         self._post(task)
 
 
+def make_label_source(env: Env, idx: int, spec: Dict[str, Any], broker: Any) -> Any:
+    """The real LabelScheduleSource over tasks declared with schedule labels; get_schedules/post_send are observed."""
+    from taskiq.schedule_sources import LabelScheduleSource
+
+    for sp in spec.get("sched", []):
+        sid = sp["sid"]
+        if sp["kind"] == "cron":
+            mins = sp["mins"]
+            entry: Dict[str, Any] = {"cron": ("*" if len(mins) == 60 else ",".join(str(m) for m in mins)) + " * * * *"}
+        else:
+            T = B0 + _dt.timedelta(milliseconds=sp["T"])
+            entry = {"time": T.replace(tzinfo=None) if sp.get("naive") else T}
+        entry.update({"args": PAYLOAD_ARGS + [sid], "kwargs": dict(PAYLOAD_KW, sid=sid), "labels": {"lbl": f"L{sid}", "n": sid}})
+
+        async def fn(*a: Any, **k: Any) -> None:
+            return None
+        fn.__name__ = f"lfn{sid}"
+        broker.register_task(fn, task_name=f"task{sid}", schedule=[entry])
+
+    class ObservedLabelSource(LabelScheduleSource):
+        npolls = 0
+
+        async def get_schedules(self) -> List[ScheduledTask]:
+            self.npolls += 1
+            n = self.npolls
+            fail = n in spec.get("fail", [])
+            env.rec("poll", src=idx, n=n, ok=not fail)
+            if fail:
+                raise ConnectionError("source down")
+            res = await super().get_schedules()
+            env.rec("listed", src=idx, n=n, ids=sorted(int(t.task_name[4:]) for t in res))
+            return res
+
+        def post_send(self, scheduled_task: ScheduledTask) -> None:
+            env.rec("postsend", src=idx, sid=int(scheduled_task.task_name[4:]))
+            super().post_send(scheduled_task)
+
+    return ObservedLabelSource(broker)
+
+
 class RecBroker(AsyncBroker):
     def __init__(self, env: Env, cfg: Dict[str, Any]) -> None:
         super().__init__()
@@ -167,11 +207,16 @@ class RecBroker(AsyncBroker):
         tm.parse_labels()
         sid_l = str(tm.labels.get("schedule_id", ""))
         sid = int(sid_l[1:]) if sid_l.startswith("s") and sid_l[1:].isdigit() else 0
+        from_label_source = False
+        if sid == 0 and tm.task_name.startswith("task") and tm.task_name[4:].isdigit() and sid_l:
+            sid = int(tm.task_name[4:])          # label-based source: generated schedule ids, one entry per task
+            from_label_source = True
         self.nk[sid] = self.nk.get(sid, 0) + 1
         fail = [sid, self.nk[sid]] in self.cfg.get("kickfail", [])
         exp_labels = {"lbl": f"L{sid}", "n": sid, "schedule_id": f"s{sid}"}
         payload_ok = (tm.task_name == f"task{sid}" and tm.args == PAYLOAD_ARGS + [sid] and tm.kwargs == dict(PAYLOAD_KW, sid=sid)
-                      and tm.labels == exp_labels and type(tm.labels.get("n")) is int)
+                      and (from_label_source or tm.labels == exp_labels) and tm.labels.get("lbl") == f"L{sid}"
+                      and type(tm.labels.get("n")) is int)
         self.env.rec("kick", sid=sid, n=self.nk[sid], ok=not fail, s="payload_ok" if payload_ok else "payload_bad")
         if self.cfg.get("kicklat"):
             await asyncio.sleep(self.cfg["kicklat"] / 1000.0)
@@ -213,7 +258,8 @@ def run(scn: Dict[str, Any]) -> List[Dict[str, Any]]:
         _install_clock(loop)
         loop._vnow = cfg["start"] / 1000.0
         broker = RecBroker(env, cfg)
-        sources = [ScriptedSource(env, i, s) for i, s in enumerate(cfg["srcs"], start=1)]
+        sources = [make_label_source(env, i, s, broker) if scn["cfg"]["srcs"][i - 1].get("label") else ScriptedSource(env, i, s)
+                   for i, s in enumerate(cfg["srcs"], start=1)]
         scheduler = TaskiqScheduler(broker, sources)  # type: ignore[arg-type]
         task = loop.create_task(sched_run.run_scheduler_loop(scheduler))
         loop.settle()
